@@ -478,7 +478,7 @@ def safe_str(value) -> str:
             text = str.__str__(text)
         return wire_safe(text)
     except BaseException:
-        # (the name of the type, not the type itself in the text: printing a class asks its metaclass, which can fail too)
+        # (the name of the type, not the type itself in the text: printing a class asks its metaclass, which can fail)
         return '%s@%s' % (type_name(type(value)), id(value))
 
 
